@@ -318,13 +318,18 @@ def t16_offs(run, fx, floors):
         if b.kind == "Closure" or not any("Transform2F" in (l.get("ty") or "") for l in b.locals):
             continue
         fields = set()
-        for bi in range(len(b.blocks)):
-            for st in b.stmts(bi):
-                txt = str(st)
-                if "CompositeGlyphComponent" in txt:
-                    for f in ("scale", "argument1", "argument2"):
-                        if "'%s'" % f in txt:
-                            fields.add(f)
+        # the function and the private helpers of the glyf module it hands the component to are read as one group: the offset may be
+        # computed in a helper (`component_offset(&component)`)
+        for hb in fx.with_helpers(b, "tables::glyf::"):
+            if hb is not b and any("Transform2F" in (l.get("ty") or "") for l in hb.locals):
+                continue        # a helper that places components itself is a site of its own
+            for bi in range(len(hb.blocks)):
+                for st in hb.stmts(bi):
+                    txt = str(st)
+                    if "CompositeGlyphComponent" in txt:
+                        for f in ("scale", "argument1", "argument2"):
+                            if "'%s'" % f in txt:
+                                fields.add(f)
         if "scale" in fields and ("argument1" in fields or "argument2" in fields):
             sites.append(b)
     want = 2 if run.config in (None, "prince", "default") else 1
